@@ -172,6 +172,13 @@ Example literal_demo :
   /\ ind (push_str_literal st (tx "{\n}{")) = 1 /\ in_comment (push_str_literal st (tx "{\n}{")) = false.
 Proof. repeat split; vm_compute; reflexivity. Qed.
 
+(** non-vacuity of [push_inert_piece]: a brace-neutral piece with braces in the middle, mid-line in a comment *)
+Example inert_demo :
+  inert (tx "let x = f({ a }) // {}; ") = true
+  /\ buf_of [Indent 2; Push (tx "a {"); Push (tx "let x = f({ a }) // {}; "); Query] = Some (tx "    a {let x = f({ a }) // {}; ")
+  /\ ind_of [Indent 2; Push (tx "a {"); Push (tx "let x = f({ a }) // {}; ")] = Some 3.
+Proof. repeat split; vm_compute; reflexivity. Qed.
+
 (** ** append_src does not update [continuing_line] (outside the property's quantifier; recorded) *)
 Example append_src_midline_indent :
   observe [B (Indent 1); Append [Push (tx "x")]; B (Push (tx "y\n"))] = Some (tx "x  y\n", []).
